@@ -47,6 +47,7 @@ From CG Require Import Model.EmitData.
 From CG Require Import Spec.InvocationsSub.
 From CG Require Import Model.Compiler.
 From CG Require Import Model.Diag.
+From CG Require Import Model.Main.
 From CG Require Import Spec.Undercut.
 (* add new Require lines above this line *)
 Require Import ExtrOcamlBasic ExtrOcamlString.
@@ -174,6 +175,7 @@ Separate Extraction
   Diag.render
   Diag.error_messages
   Diag.warning_messages
+  Main.run
   Undercut.undercut
   (* add new roots above this line *)
   Prelude.pow2.
